@@ -1,6 +1,6 @@
 /-
 Model of the timers of `edzed.FSM` (edzed/fsm.py: `_ctx_event`, `_start_timer`, `_set_timer`,
-`_stop_timer`, `_timer_expired`, `get_state`, `stop`) together with the part of the event loop
+`_stop_timer`, `_timer_expired`, `get_state`, `stop`, `_restore_state`) together with the part of the event loop
 they use (`call_later` handles of this FSM, their cancellation and expiry).
 
 Self-contained table-driven FSM core: states, transition table with specific and any-state
@@ -18,6 +18,12 @@ The model mirrors the code WITH the two minimal repairs of patches/C04-*.diff:
     `get_state()` reported the fired timer's past time stamp after a rejected timed event);
   * `stop()` disables `_set_timer` (defect 7: an event delivered during the clean-up after
     `FSM.stop()` armed a timer that outlived the simulation).
+
+`restore` mirrors `_restore_state` as repaired by the upstream fix "restore: start the timer only when the
+state was really restored": the timer of a restored timed state is started after `calc_output()` has
+delivered an output; when `calc_output()` raises or returns UNDEF the block stays uninitialised and owns no
+timer (before the fix the timer was started first and was orphaned by the initialisation that followed;
+EdzedProofs/FsmTimer.lean keeps that order as `restoreOld`, EdzedProps/C04.lean shows what goes wrong).
 
 Ghost data used by the theorems only: `epoch` (number of state entries so far = the current
 "visit"), stamped on every handle when it is armed and on every `fire` log entry.
@@ -147,6 +153,9 @@ def St.fail (s : St) (k : ErrKind) : St :=
 
 /-- `self._state = q`: a new visit begins -/
 def St.enter (s : St) (q : String) : St := { s with state := some q, epoch := s.epoch + 1 }
+
+/-- `self.sdata = …` (the part of `sdata` the model knows: the stored input value) -/
+def St.setInput (s : St) (v : Option Val) : St := { s with input := v }
 
 /-- `self._next_event = …` -/
 def St.setNextEv (s : St) (x : Option (TEvent × EvData × String)) : St := { s with next := x }
@@ -444,12 +453,21 @@ inductive Placement where
   | after       -- A: the timers due at `t` have run
   deriving DecidableEq, Repr, Inhabited
 
+/-- what `calc_output()` does when `_restore_state` calls it: the regular output function of the block, an
+    exception (an application-defined `calc_output` may fail on a restored state), or UNDEF ("leave the output
+    unchanged") -/
+inductive CalcMode where
+  | normal | raises | undef
+  deriving DecidableEq, Repr, Inhabited
+
 inductive Op where
   | init
   | ev (t : Nat) (pl : Placement) (e : TEvent) (d : EvData)
   | advance (t : Nat)
   | gate (b : Bool)
   | stop
+  /-- `init_from_persistent_data` → `_restore_state((q, exp, sdata))`; `exp` on the model's clock -/
+  | restore (q : String) (exp : Option Nat) (sd : Option Val) (m : CalcMode)
   deriving Repr, Inhabited
 
 /-- `FSM.stop()` -/
@@ -459,8 +477,44 @@ def stop (s : St) : St := { stopTimer s with stopped := true }
 def initOp (c : Cfg) (s : St) : St × Res :=
   deliver c { s with input := c.initInput } (.goto c.initState) {}
 
+/-- `self.calc_output()` as called by `_restore_state`; `none` = it raises -/
+def calcFor (c : Cfg) (s : St) : CalcMode → Option Val
+  | .normal => calcOutput c s
+  | .raises => none
+  | .undef => some .undef
+
+/-- the end of `_restore_state`, after `self._state = state; self.sdata = sdata`: the timer is started only when
+    `calc_output()` has delivered an output, i.e. when the state is really restored (`arm` = `timer_args`).  When
+    `calc_output()` raises or returns UNDEF the block stays uninitialised -- it will be initialised by other means,
+    and `_ctx_event` does not stop timers of a block that is not initialised -- and must not own a timer. -/
+def restoreTail (c : Cfg) (s : St) (arm : Option (Nat × TEvent)) (m : CalcMode) : St × Res :=
+  match calcFor c s m with
+  | none => (s, .err .keyError)
+  | some v =>
+    if v.isUndef then (s, .ret true)
+    else
+      let s2 := match arm with
+        | some (d, ev) => setTimer s d ev
+        | none => s
+      (setOut s2 v, .ret true)
+
+/-- `FSM._restore_state((q, exp, sdata))` (compatibility with 2-tuples aside).  An error is returned, not recorded in
+    `failed`: `init_from_persistent_data` logs and suppresses it, the block is then initialised by other means. -/
+def restore (c : Cfg) (s : St) (q : String) (exp : Option Nat) (sd : Option Val) (m : CalcMode) : St × Res :=
+  if !c.tbl.states.contains q then (s, .err .valueError)
+  else match exp with
+    | none => restoreTail c ((s.enter q).setInput sd) none m
+    | some t =>
+      if t ≤ s.now then (s, .ret true)         -- "ignoring expired state"
+      else match c.tbl.timedOf q with
+        | none => (s, .err .circuitError)      -- "cannot set a timer for a not timed state"
+        | some (ev, _) => restoreTail c ((s.enter q).setInput sd) (some (t - s.now, ev)) m
+
 def step (c : Cfg) (s : St) : Op → St × Res
   | .stop => (stop s, .ret true)
+  | .restore q exp sd m =>
+    -- the simulator restores a block only while it is not initialised (`init_sblock`)
+    if s.failed.isSome || !s.out.isUndef then (s, .aborted) else restore c s q exp sd m
   | .advance t =>
     if s.failed.isSome then ({ s with now := if s.now < t then t else s.now }, .aborted)
     else (advance c s t false, .ret true)
